@@ -104,6 +104,20 @@ func (w *World) checkEpoch(n int64, before, after *Obs, e *Expect, hookErr error
 		return
 	}
 
+	if e.Refused {
+		vac["vesting_exhausted_epoch_refused"]++
+		if hookErr == nil {
+			fail("refusal_reported", "the developer vesting account (%s) does not cover the developer share, yet the hook reported success", before.Vesting)
+		}
+		if s := diff(before, after, false); s != "" {
+			fail("refused_epoch_no_effect", "refused epoch changed state:%s", s)
+		}
+		return
+	}
+	if before.Vesting.Cmp(e.P) < 0 && e.D.Sign() > 0 {
+		vac["vesting_below_provision_still_mints"]++
+	}
+
 	// ---- emission schedule
 	if after.Prov.Cmp(decRaw(e.Prov)) != 0 {
 		fail("provision_schedule", "Minter.EpochProvisions = %s, reference %s (reduction due at this epoch: %v; before the epoch %s)",
